@@ -722,7 +722,7 @@ pub fn gen_state(rng: &mut Rng, n: u32) -> ScoreState {
         _ => {
             // random partition of n
             let mut rem = n;
-            let mut take = |rng: &mut Rng, rem: &mut u32, p: f64| -> u32 {
+            let take = |rng: &mut Rng, rem: &mut u32, p: f64| -> u32 {
                 if *rem == 0 {
                     return 0;
                 }
